@@ -36,11 +36,13 @@ def uni_grid(data):
                            np.array([lo, hi, float(np.median(data))])])
 
 
-P_GRID = np.array([0.0, 1e-9, 0.01, 0.25, 0.5, 0.75, 0.99, 1.0 - 1e-9, 1.0])
+_EPS32 = float(np.finfo(np.float32).eps)
+# incl. the library's own clipping constants exactly (boundary of its case distinctions)
+P_GRID = np.array([0.0, 1e-9, _EPS32, 0.01, 0.25, 0.5, 0.75, 0.99, 1.0 - _EPS32, 1.0 - 1e-9, 1.0])
 UV_GRID = np.array([[0.1, 0.2], [0.5, 0.5], [0.9, 0.3], [0.3, 0.95], [0.01, 0.02], [0.7, 0.71]])
 
 
-def observe(model, kind, data=None, seed=12345, state=999, with_dict=True):
+def observe(model, kind, data=None, seed=12345, state=999, with_dict=True, poison='zero'):
     """Observation record (JSON-able, canonical).  The model itself is queried - not a deep
     copy, which would route the observation through the model's own copy/pickle protocol and
     hide a defect of that protocol in both sides of a comparison.  Only ``random_state`` is
@@ -49,7 +51,7 @@ def observe(model, kind, data=None, seed=12345, state=999, with_dict=True):
     rec = {'class': type(model).__module__ + '.' + type(model).__name__}
     saved_rs = getattr(model, 'random_state', None)
     try:
-        return _observe(m, kind, data, seed, state, with_dict, rec)
+        return _observe(m, kind, data, seed, state, with_dict, rec, poison)
     finally:
         try:
             model.random_state = saved_rs
@@ -57,8 +59,8 @@ def observe(model, kind, data=None, seed=12345, state=999, with_dict=True):
             pass
 
 
-def _observe(m, kind, data, seed, state, with_dict, rec):
-    with sterile(state), Poison('zero'):
+def _observe(m, kind, data, seed, state, with_dict, rec, poison='zero'):
+    with sterile(state), Poison(poison):
         if kind == 'uni':
             inst = getattr(m, '_instance', None)
             if type(m).__name__ == 'Univariate':
